@@ -166,10 +166,12 @@ func (n *node[T]) clean(prefix string) {
 	}
 
 	dels := make([]string, 0, len(n.children))
+	var cleaned *node[T]
 	for _, child := range n.children {
 		if len(child.segment.Value) < len(prefix) {
 			if strings.HasPrefix(prefix, child.segment.Value) {
 				child.clean(prefix[len(child.segment.Value):])
+				cleaned = child
 				if child.size() == 0 && len(child.children) == 0 { // 清理之后既无处理项也无子节点，与 Remove 一样不保留空节点。
 					dels = append(dels, child.segment.Value)
 				}
@@ -185,6 +187,9 @@ func (n *node[T]) clean(prefix string) {
 		n.children = removeNodes(n.children, del)
 	}
 	n.buildIndexes()
+	if cleaned != nil && cleaned.parent == n && slices.Contains(n.children, cleaned) {
+		cleaned.mergeChild()
+	}
 }
 
 // 从子节点中查找与当前路径匹配的节点，若找不到，则返回 nil。
@@ -277,6 +282,29 @@ func splitNode[T any](n *node[T], pos int) (*node[T], error) {
 	p.sort()
 
 	return ret, nil
+}
+
+// splitNode 的逆操作：n 自身没有处理项且只剩下一个字符串类型的子节点时，将两者重新合并成一个节点。
+//
+// 参数之后的字符串被拆分到不同的节点，会改变该参数的匹配结果，
+// 比如 {x}/b + c 无法匹配 1/b/bc，而 {x}/bc 可以，所以删除路由项之后需要恢复成未拆分的状态。
+func (n *node[T]) mergeChild() {
+	for n.parent != nil && n.size() == 0 && len(n.children) == 1 &&
+		n.segment.Type != syntax.String && n.children[0].segment.Type == syntax.String {
+		c := n.children[0]
+		seg, err := n.root.interceptors.NewSegment(n.segment.Value + c.segment.Value)
+		if err != nil {
+			return
+		}
+
+		p := n.parent
+		p.children = removeNodes(p.children, n.segment.Value)
+		c.segment = seg // 继续使用 c 对象本身，理由与 splitNode 相同。
+		c.parent = p
+		p.children = append(p.children, c)
+		p.sort()
+		n = c
+	}
 }
 
 // 将所有的路由地址列表写入 routes
